@@ -75,8 +75,8 @@ theorem C07_trans (x y z : Val) (hx : Comparable x) (hy : Comparable y)
 /-! ### the same three laws for every value that HAS an `Equals`, whether or not it has a hash key
 
 `EqComparable` is `Comparable` without "has a hash key": SemVer, SemVerRange (whatever string it was parsed from), TypedName,
-Deferred and Parameter values are inside (at any depth of arrays, hash VALUES, entries, Deferred arguments, Parameter
-values).  `C07_refl/symm/trans` are the special cases (`C07_eqComparable_of_comparable`). -/
+Deferred and Parameter values and instances of Object types are inside (at any depth of arrays, hash VALUES, entries, Deferred
+arguments, Parameter values, attribute values).  `C07_refl/symm/trans` are the special cases (`C07_eqComparable_of_comparable`). -/
 
 theorem C07_eqComparable_of_comparable (x : Val) (h : Comparable x) : EqComparable x := ecmp_of_cmp x h
 
@@ -86,6 +86,29 @@ theorem C07_symm_all (x y : Val) (hx : EqComparable x) (hy : EqComparable y) : v
 
 theorem C07_trans_all (x y z : Val) (hx : EqComparable x) (hy : EqComparable y)
     (h1 : veq x y = true) (h2 : veq y z = true) : veq x z = true := veq_trans_e x y z hx hy h1 h2
+
+/-- instances of Object types are inside the three laws too (`EqComparable` asks of an instance what `px.New` guarantees: unique
+    attribute names, distinct equality positions inside the type, one value per attribute).  `attributeSlice.Equals` compares by
+    position for the same type and by attribute NAME across two types that both declare `equality_include_type => false`; both
+    branches say "every participating name/value pair of the receiver has an Equal partner of the same name in the argument"
+    (`veq_obj_view`), and symmetry is the counting argument between two views of the same size (`viewLe_symm`).
+    Non-vacuity: `E{a, b; equality [a]}` and `F{b, a; equality [a]}`, neither including the type: `E(1, 2)`, `F(3, 1)`, `E(1, 9)`
+    are pairwise Equal, `E(2, 2)` is not, nor is any instance of a type that includes its type in equality -/
+def otE : OType := ⟨[0x45], false, [[0x61], [0x62]], [0]⟩
+def otF : OType := ⟨[0x46], false, [[0x62], [0x61]], [1]⟩
+def otA : OType := ⟨[0x41], true, [[0x61], [0x62]], [0, 1]⟩
+example : EqComparable (.obj otE [.int 1, .int 2]) ∧ EqComparable (.obj otF [.int 3, .int 1]) ∧
+    EqComparable (.array [.obj otA [.obj otE [.int 1, .int 2], .hash [(.str [0x61], .obj otF [.int 3, .int 1])]]]) ∧
+    ¬ EqComparable (.obj otE [.int 1]) ∧ ¬ EqComparable (.obj ⟨[0x45], false, [[0x61], [0x61]], [0]⟩ [.int 1, .int 2]) := by decide
+example : veq (.obj otE [.int 1, .int 2]) (.obj otF [.int 3, .int 1]) = true ∧
+    veq (.obj otF [.int 3, .int 1]) (.obj otE [.int 1, .int 9]) = true ∧
+    veq (.obj otE [.int 2, .int 2]) (.obj otF [.int 3, .int 1]) = false ∧
+    veq (.obj otA [.int 1, .int 2]) (.obj otE [.int 1, .int 2]) = false ∧
+    key (.obj otE [.int 1, .int 2]) = none := by decide
+example : veq (.obj otF [.int 3, .int 1]) (.obj otE [.int 1, .int 2]) = true :=
+  (C07_symm_all _ _ (by decide) (by decide)).symm.trans (by decide)
+example : veq (.obj otE [.int 1, .int 2]) (.obj otE [.int 1, .int 9]) = true :=
+  C07_trans_all _ (.obj otF [.int 3, .int 1]) _ (by decide) (by decide) (by decide) (by decide)
 
 /-- the hypotheses are met by values of the new kinds that are not `Comparable`: a Deferred whose argument is a Hash with a
     SemVer value, a Parameter with a Variant type in another member order, a TypedName in another letter case -/
